@@ -79,6 +79,23 @@ def routes(text):
     if "\\" not in text:
         out.append(("JSONPointer().resolve", lambda d: JSONPointer(text).resolve(d)))
         out.append(("pointer.resolve()", lambda d: ptr_resolve(text, d)))
+
+    def after_other_flags(d):
+        # the same text handed over first under the other flag settings (whose own outcome is not judged here): what the
+        # escape-decoding-off pointer means must not depend on that history
+        for kw in ({}, {"uri_decode": True}, {"unicode_escape": True, "uri_decode": True}):
+            try:
+                JSONPointer(text, **kw).resolve(d, default=None)
+            except Exception:  # noqa: BLE001
+                pass
+            try:
+                ptr_resolve(text, d, default=None, **kw)
+            except Exception:  # noqa: BLE001
+                pass
+        return JSONPointer(text, unicode_escape=False).resolve(d)
+
+    # first, so that a text new to this process meets the other flag settings before the judged one
+    out.insert(0, ("JSONPointer(ue=False).resolve after the same text under other flags", after_other_flags))
     return out
 
 
